@@ -63,6 +63,10 @@ theorem stepInstr_preserves8 (P : Ctx → Prop) (H : OpsPreserve8 P) (s : St) (i
       split <;> rename_i heq <;> rw [heq] at this <;> first | exact this | trivial
     · trivial
   · split
+    · have := H.attrSet s.ctx (ps.getD 0 0) 0 (i16 (i32 (‹Int› + curAttr s.ctx (ps.getD 0 0)))) h
+      split <;> rename_i heq <;> rw [heq] at this <;> first | exact this | trivial
+    · trivial
+  · split
     · have := H.attrSet s.ctx (ps.getD 0 0) ((if ps.getD 0 0 = 2 then s.ctx.map - 1 else 0 : Int) % 256).toNat (i16 (i32 (‹Int› + (if ps.getD 0 0 = 2 then s.ctx.map - 1 else 0)))) h
       split <;> rename_i heq <;> rw [heq] at this <;> first | exact this | trivial
     · trivial
@@ -474,8 +478,8 @@ theorem reverse_idx {s : Seg} (h : IdxPerm s) (mark : Nat → Bool) : IdxPerm (s
   rw [e1, hp.length_eq]
   exact (hp.map _).trans hperm
 
-theorem runPassDir_idx (p : PassT) (hp : PassOK NoID p) (c : Ctx) (fuel : Nat) (h : IdxPerm c.seg) {c' : Ctx}
-    (e : runPassDir p c fuel = .ok (some c')) : IdxPerm c'.seg := by
+theorem runPassDir_idx (p : PassT) (hp : PassOK NoID p) (c : Ctx) (fuel : Nat) (ar : Bool) (h : IdxPerm c.seg) {c' : Ctx}
+    (e : runPassDir p c fuel ar = .ok (some c')) : IdxPerm c'.seg := by
   unfold runPassDir at e
   split at e
   · cases e; exact h
@@ -490,45 +494,17 @@ theorem runPassDir_idx (p : PassT) (hp : PassOK NoID p) (c : Ctx) (fuel : Nat) (
           · exact runPass_idx p hp (c.withSeg (c.seg.reverseSlots (isMark c c.seg))) fuel (reverse_idx h _) e
           · exact runPass_idx p hp c fuel h e
 
-/-- **a run of passes whose code neither inserts nor deletes keeps the index permutation** -/
-theorem runRange_idx (passes : Array PassT) (c : Ctx) (lo hi fuel : Nat)
+/-- **a call of `Silf::runGraphite` whose passes neither insert nor delete keeps the index permutation** -/
+theorem runPhase_idx (passes : Array PassT) (bPass : Nat) (c : Ctx) (lo hi : Nat) (dobidi : Bool) (fuel : Nat)
     (hpo : ∀ k, k < hi - lo → PassOK NoID (passes.getD (lo + k) default)) (h : IdxPerm c.seg)
-    {c' : Ctx} (e : runRange passes c lo hi fuel = .ok (some c')) : IdxPerm c'.seg := by
-  unfold runRange at e
-  simp only [] at e
-  have : ∀ (ks : List Nat), (∀ k ∈ ks, PassOK NoID (passes.getD (lo + k) default)) →
-      ∀ (acc : Except String (Option Ctx)), (∀ x, acc = .ok (some x) → IdxPerm x.seg) →
-      ∀ x, ks.foldl (fun (acc : Except String (Option Ctx)) k =>
-        match acc with
-        | .ok (some c1) =>
-          (match runPassDir (passes.getD (lo + k) default) c1 fuel with
-           | .ok (some c2) => if c2.seg.numGlyphs > 0 ∧ c2.seg.numGlyphs > c.seg.numGlyphs * 64 then .ok none else .ok (some c2)
-           | o => o)
-        | o => o) acc = .ok (some x) → IdxPerm x.seg := by
-    intro ks
-    induction ks with
-    | nil => intro _ acc ha x hx; exact ha x hx
-    | cons k rest ih =>
-      intro hk acc ha x hx
-      simp only [List.foldl_cons] at hx
-      refine ih (fun k' hk' => hk k' (List.mem_cons_of_mem _ hk')) _ ?_ x hx
-      intro y hy
-      split at hy
-      · rename_i c1
-        split at hy
-        · rename_i c2 hrp
-          split at hy
-          · cases hy
-          · cases hy
-            exact runPassDir_idx _ (hk k List.mem_cons_self) c1 fuel (ha c1 rfl) hrp
-        · rename_i o hno
-          exact absurd hy (by
-            intro hh
-            exact hno y (by rw [hh]))
-      · rename_i o hno
-        exact absurd hy (fun hh => hno y hh)
-  exact this (List.range (hi - lo)) (fun k hk => hpo k (List.mem_range.mp hk)) (.ok (some (c.beginRange (c.seg.numGlyphs * 64))))
-    (fun x hx => by cases hx; exact h) c' e
+    {c' : Ctx} (e : runPhase passes bPass c lo hi dobidi fuel = .ok (some c')) : IdxPerm c'.seg := by
+  refine runPhase_ind (fun x => IdxPerm x.seg) passes bPass lo hi dobidi fuel
+    (fun ar k h1k h2k c1 c2 h1 e1 => runPassDir_idx _ (by have := hpo (k - lo) (by omega); rw [show lo + (k - lo) = k by omega] at this; exact this) c1 fuel ar h1 e1)
+    (fun x l hx => hx) (fun x hx => ?_) c h e
+  unfold bidiStep
+  split
+  · exact reverse_idx hx _
+  · exact hx
 
 /-! ## `associateChars` numbers the stream, and the pipeline -/
 
@@ -611,7 +587,7 @@ theorem shape_index_perm (font : Font) (text : List Nat) (fuel : Nat) (dir : Nat
     · cases e
     · cases e
     · rename_i c1 h1
-      have w1 : WF c1.seg := runRange_spec _ _ _ _ _ (initSeg_wf font text dir) h1
+      have w1 : WF c1.seg := runPhase_spec _ _ _ _ _ _ _ (initSeg_wf font text dir) h1
       split at e
       · cases e
       · rename_i seg' ci' hre
@@ -622,7 +598,7 @@ theorem shape_index_perm (font : Font) (text : List Nat) (fuel : Nat) (dir : Nat
         · rename_i c2 h2
           simp only [Except.ok.injEq, Option.some.injEq, Prod.mk.injEq] at e
           rw [← e.1]
-          exact runRange_idx _ (c1.withSeg seg') _ _ fuel hp w2 h2
+          exact runPhase_idx _ _ (c1.withSeg seg') _ _ _ fuel hp w2 h2
 
 /-! ## the hypothesis is a finite check -/
 
